@@ -5,7 +5,7 @@ and undo it with `git -C /repo checkout -- .`.  Writes detection/matrix.json
 and detection/matrix.md.  /repo must be clean and nothing else may be using
 it while this runs.
 
-usage: tools/detect_all.py [--checks all|listed] [seed ids...]
+usage: tools/detect_all.py [--checks all|listed|target] [seed ids...]
   listed (default): only the checks recorded as detecting in meta.json plus
                     the check of the property the seed targets
 """
@@ -41,8 +41,17 @@ def main():
     for seed in seeds:
         d = os.path.join(HERE, 'seeded', seed)
         meta = json.load(open(os.path.join(d, 'meta.json')))
-        checks = ALL if mode == 'all' else sorted(
-            set(meta.get('detected_by', [])) | {meta['breaks_property']})
+        if mode == 'all':
+            checks = ALL
+        elif mode == 'target':
+            # the check of the property the seed targets, else the first
+            # check recorded as detecting it
+            det = meta.get('detected_by', [])
+            tgt = meta['breaks_property']
+            checks = [tgt] if (tgt in det or not det) else [tgt, det[0]]
+        else:
+            checks = sorted(set(meta.get('detected_by', [])) |
+                            {meta['breaks_property']})
         rc, out = sh('git apply %s' % os.path.join(d, 'patch.diff'), REPO)
         if rc != 0:
             print(seed, 'patch does not apply:', out)
